@@ -51,8 +51,8 @@ UNIT = Unit(
            closures=[Closure(0, "tx: Transaction", "(r: Option<Transaction>)", ensures=[C("pred", "r == (if is_deposit_req(*state, tx) { Some(tx) } else { None::<Transaction> })", "C15")])]),
         Fn(M, "get_withdrawal_transactions", home="C15", implicit_props=("C09", "C15"),
            requires=[C("wf", "state.coins.wf()")],
-           ensures=[C("selected", "selected(state.transactions@, res@, |tx: Transaction| is_withdraw_req(*state, tx))", "C15", "C01")],
-           rewrites=[("ANF", "collect", 0, 4, {2: sel_proof("is_withdraw_req")})],
+           ensures=[C("selected", "selected(state.transactions@, res@, withdraw_pred(*state))", "C15", "C01")],
+           rewrites=[("ANF", "collect", 0, 4, {2: sel_proof("is_withdraw_req", "withdraw_pred(*state)")})],
            closures=[Closure(0, "tx: Transaction", "(r: Option<Transaction>)", ensures=[C("pred", "r == (if is_withdraw_req(*state, tx) { Some(tx) } else { None::<Transaction> })", "C15")])]),
         Fn(M, "extract_pool_keys_sorted", home="C15", implicit_props=("C09", "C15", "C16"), **mm_extract_pool_keys(),
            rewrites=[("PIPE",), ("SUB", "v.sort();", "pk_sort(&mut v);"), ("SUB", "v.dedup();", "pk_dedup(&mut v);"), ("ANF", "collect", 0, 3, {}, "K"), ("ROOT", "iter", 0, "slice_iter", False)],
@@ -169,6 +169,7 @@ UNIT = Unit(
                    C("len", "deposits@.len() == n0 && __n == n0 && n0 == deps0.len() && deposits_pre(deps0, *pool) && (forall|j: int| __i <= j < n0 ==> #[trigger] deposits@[j] == deps0[j])", "C15"),
                    C("consts", "total_liqs as int == minted && total_mtsqrt as int == div && (n0 > 0 ==> div >= 1) && legacy == deposit_legacy(st0.network, st0.height)", "C15"),
                    C("settled", "!legacy ==> deps_settled(c0, state.coins@.coins, deps0, __i as int, *pool, minted, div, st0.height)", "C15", "C01"),
+                   C("idsi", "forall|id: CoinID| #[trigger] state.coins@.coins.contains_key(id) ==> c0.contains_key(id) || exists|q: int| 0 <= q < __i && id == cid(#[trigger] deps0[q], 0)", "C15"),
                    C("inv", "state.coins.wf() && (spec_tip906(st0) ==> counts_ok(state.coins@)) && origin_ok(state.coins@.coins) && (!spec_tip906(st0) ==> state.coins@.counts == st0.coins@.counts)", "C20"),
                    C("frame", "pool_phase_frame(st0, *state) && state.fee_pool == st0.fee_pool && state.pools@ == pools1 && state.height == st0.height && state.network == st0.network", "C15"),
                ])]),
@@ -222,6 +223,8 @@ UNIT = Unit(
                                 if done_set(pools@, n).contains(k2) { let j = choose|j: int| 0 <= j < n && pools@[j] == k2; assert(pools@.contains(k2)); }
                                 if mentions(reqs, k2) { assert(pools@.contains(k2)); let j = choose|j: int| 0 <= j < pools@.len() && pools@[j] == k2; } } }
                         assert(selected(s0.transactions@, reqs, deposit_pred(s0)));
+                        assert(liqs_mono(s0.pools@, st.pools@)) by { assert forall|k2: PoolKey| #[trigger] s0.pools@.contains_key(k2) implies st.pools@.contains_key(k2) && st.pools@[k2].liqs >= s0.pools@[k2].liqs by {
+                            assert(st.pools@.contains_key(k2)); if fin.contains(k2) { assert(pool_or_empty(s0.pools@, k2) == s0.pools@[k2]); } } }
                         assert(deps_done(s0.pools@, c0, s0.height, legacy, reqs, fin, mint, st.pools@, st.coins@.coins));
                         assert(pools_ok(st.pools@)) by { assert forall|k2: PoolKey| #[trigger] st.pools@.contains_key(k2) implies
                             ((pool_live(st.pools@[k2]) && st.pools@[k2].liqs > 0) || (st.pools@[k2].lefts == 0 && st.pools@[k2].rights == 0 && st.pools@[k2].liqs == 0)) by {
@@ -240,6 +243,9 @@ UNIT = Unit(
                        assert(st.pools@.contains_key(k) ==> pb[k] == s0.pools@[k]); }""",
                body_exit="""proof { let minted = choose|minted: int| #[trigger] deposits_result(pb, cb, pool_reqs(reqs, k), k, s0.height, legacy, st.pools@, st.coins@.coins, minted);
                        lemma_deps_done_step(s0.pools@, c0, s0.height, legacy, reqs, done_set(pools@, i), mint, pb, cb, k, st.pools@, st.coins@.coins, minted);
+                       lemma_filter_mem(reqs, for_pool(k));
+                       assert forall|id: CoinID| #[trigger] st.coins@.coins.contains_key(id) implies c0.contains_key(id) by { if !cb.contains_key(id) {
+                           let rk = pool_reqs(reqs, k); let q = choose|q: int| 0 <= q < rk.len() && id == cid(#[trigger] rk[q], 0); assert(rk.contains(rk[q])); let j = choose|j: int| 0 <= j < reqs.len() && reqs[j] == rk[q]; } }
                        mint = |k2: PoolKey| if k2 == k { minted } else { mint(k2) };
                        assert(done_set(pools@, i + 1) =~= done_set(pools@, i).insert(k)) by {
                            assert forall|k2: PoolKey| done_set(pools@, i + 1).contains(k2) <==> done_set(pools@, i).insert(k).contains(k2) by {
@@ -253,8 +259,61 @@ UNIT = Unit(
                    C("frame", "pool_phase_frame(s0, st) && st.fee_pool == s0.fee_pool && st.height == s0.height && st.network == s0.network", "C15", "C17"),
                    C("inv", "st.coins.wf() && (spec_tip906(s0) ==> counts_ok(st.coins@)) && origin_ok(st.coins@.coins) && (!spec_tip906(s0) ==> st.coins@.counts == s0.coins@.counts)", "C20"),
                    C("done", "deps_done(s0.pools@, c0, s0.height, legacy, reqs, done_set(pools@, it.index@ as int), mint, st.pools@, st.coins@.coins)", "C15", "C01"),
+                   C("ids", "ids_sub(c0, st.coins@.coins)", "C16"),
                ])]),
-        Fn(M, "process_withdrawals", mode="assume", **mm_phase("withdrawals")),
+        Fn(M, "process_withdrawals", home="C15", implicit_props=("C09", "C15", "C16", "C01"), **mm_process_withdrawals(),
+           rewrites=[("MUTPARAM", "state", "st"), ("R3", 0)],
+           injects=[Inject(("after_let", "withdraw_reqs"), """let ghost s0 = state; let ghost c0 = state.coins@.coins; let ghost reqs = withdraw_reqs@; let ghost txs = state.transactions@; let ghost t902 = spec_tip(state.network, state.height, 180000);
+                        let ghost mut wl: spec_fn(PoolKey) -> int = |k: PoolKey| 0int; let ghost mut wr: spec_fn(PoolKey) -> int = |k: PoolKey| 0int;
+                        proof { lemma_selected_withdrawals(s0, reqs); }"""),
+                    Inject(("after_let", "pools"), """proof { assert(withdraw_reqs@ == reqs);
+                        assert(done_set(pools@, 0) =~= ISet::<PoolKey>::empty());
+                        assert(wds_done(s0.pools@, c0, s0.height, reqs, done_set(pools@, 0), wl, wr, st.pools@, st.coins@.coins)); }"""),
+                    Inject("before_tail", """proof { let n = pools@.len() as int; let fin = mentioned_set(reqs);
+                        assert(done_set(pools@, n) =~= fin) by {
+                            assert forall|k2: PoolKey| done_set(pools@, n).contains(k2) <==> fin.contains(k2) by {
+                                if done_set(pools@, n).contains(k2) { let j = choose|j: int| 0 <= j < n && pools@[j] == k2; assert(pools@.contains(k2)); }
+                                if mentions(reqs, k2) { assert(pools@.contains(k2)); let j = choose|j: int| 0 <= j < pools@.len() && pools@[j] == k2; } } }
+                        assert(selected(s0.transactions@, reqs, withdraw_pred(s0)));
+                        assert(wds_done(s0.pools@, c0, s0.height, reqs, fin, wl, wr, st.pools@, st.coins@.coins));
+                        assert forall|k2: PoolKey| #[trigger] st.pools@.contains_key(k2) implies
+                            ((pool_live(st.pools@[k2]) && st.pools@[k2].liqs > 0) || (st.pools@[k2].lefts == 0 && st.pools@[k2].rights == 0 && st.pools@[k2].liqs == 0)) && (is_builtin_key(k2, t902) && pool_live(s0.pools@[k2]) ==> pool_live(st.pools@[k2])) by {
+                                assert(s0.pools@.contains_key(k2));
+                                if fin.contains(k2) { lemma_selected_from(s0, reqs, withdraw_pred(s0), k2); lemma_pool_wds_pre(txs, s0.pools@, c0, reqs, k2, t902);
+                                    lemma_sat_sum_bounds(out_vals(pool_reqs(reqs, k2), 0), pool_reqs(reqs, k2).len() as int); lemma_wd_q_pos(reqs, k2);
+                                    lemma_withdraw_keeps_ok(s0.pools@[k2], st.pools@[k2], wd_q(reqs, k2), wl(k2), wr(k2), is_builtin_key(k2, t902)); } }
+                        assert(pools_ok(st.pools@));
+                        assert(st.pools@.contains_key(pk_mel_sym()) && st.pools@.contains_key(pk_mel_erg()));
+                        if spec_tip(s0.network, s0.height, 180000) { assert(st.pools@.contains_key(pk_erg_sym())); }
+                        assert(builtins_live(st)); assert(state_inv(st)); }""")],
+           loops=[Loop(0, binder="it",
+               body_entry="""let ghost pb = st.pools@; let ghost cb = st.coins@.coins; let ghost i = it.index@ as int; let ghost k = *pool;
+                   proof { assert(k == pools@[i]); assert(pools@.contains(k)); assert(mentions(reqs, k));
+                       assert(!done_set(pools@, i).contains(k)) by { if done_set(pools@, i).contains(k) { let j = choose|j: int| 0 <= j < i && pools@[j] == k; assert(pools@[j] == pools@[i]); } }
+                       lemma_selected_from(s0, reqs, withdraw_pred(s0), k); lemma_pool_wds_pre(txs, s0.pools@, c0, reqs, k, t902);
+                       assert(pb[k] == s0.pools@[k]);
+                       // coins under index 1 of this pool's requests are still absent: earlier steps only added ids of other pools' requests
+                       lemma_filter_mem(reqs, for_pool(k));
+                       assert forall|q: int| 0 <= q < pool_reqs(reqs, k).len() implies !cb.contains_key(cid(#[trigger] pool_reqs(reqs, k)[q], 1)) by {
+                           let t = pool_reqs(reqs, k)[q]; assert(pool_reqs(reqs, k).contains(t)); let j = choose|j: int| 0 <= j < reqs.len() && reqs[j] == t;
+                           if wd_new(reqs, done_set(pools@, i), cid(t, 1)) { let j2 = choose|j2: int| 0 <= j2 < reqs.len() && done_set(pools@, i).contains(swap_key(#[trigger] reqs[j2])) && cid(t, 1) == cid(reqs[j2], 1);
+                               if j != j2 { if j < j2 { assert(spec_txhash(reqs[j]) != spec_txhash(reqs[j2])); } else { assert(spec_txhash(reqs[j2]) != spec_txhash(reqs[j])); } } assert(for_pool(k)(reqs[j])); } } }""",
+               body_exit="""proof { let (l, r) = choose|l: int, r: int| #[trigger] withdrawals_result(pb, cb, pool_reqs(reqs, k), k, s0.height, st.pools@, st.coins@.coins, l, r);
+                       lemma_wds_done_step(s0.pools@, c0, s0.height, reqs, done_set(pools@, i), wl, wr, pb, cb, k, st.pools@, st.coins@.coins, l, r);
+                       wl = |k2: PoolKey| if k2 == k { l } else { wl(k2) }; wr = |k2: PoolKey| if k2 == k { r } else { wr(k2) };
+                       assert(done_set(pools@, i + 1) =~= done_set(pools@, i).insert(k)) by {
+                           assert forall|k2: PoolKey| done_set(pools@, i + 1).contains(k2) <==> done_set(pools@, i).insert(k).contains(k2) by {
+                               if done_set(pools@, i + 1).contains(k2) { let j = choose|j: int| 0 <= j < i + 1 && pools@[j] == k2; if j < i { assert(done_set(pools@, i).contains(k2)); } }
+                               if done_set(pools@, i).contains(k2) { let j = choose|j: int| 0 <= j < i && pools@[j] == k2; assert(0 <= j < i + 1 && pools@[j] == k2); }
+                               if k2 == k { assert(0 <= i < i + 1 && pools@[i] == k2); } } } }""",
+               invariants=[
+                   C("ctx", """refs_of(it.seq(), pools@) && withdraw_reqs@ == reqs && wd_reqs_ok(s0.pools@, c0, reqs) && c0 == s0.coins@.coins && txs == s0.transactions@ && t902 == spec_tip(s0.network, s0.height, 180000) && pools@.no_duplicates()
+                         && (forall|k: PoolKey| #[trigger] pools@.contains(k) <==> mentions(reqs, k)) && state_inv(s0) && builtins_live(s0) && pools_ok(s0.pools@) && wd_env(txs, s0.pools@, c0, t902)
+                         && selected(s0.transactions@, reqs, withdraw_pred(s0))""", "C15"),
+                   C("frame", "pool_phase_frame(s0, st) && st.fee_pool == s0.fee_pool && st.height == s0.height && st.network == s0.network", "C15", "C17"),
+                   C("inv", "st.coins.wf() && (spec_tip906(s0) ==> counts_ok(st.coins@)) && origin_ok(st.coins@.coins) && (!spec_tip906(s0) ==> st.coins@.counts == s0.coins@.counts)", "C20"),
+                   C("done", "wds_done(s0.pools@, c0, s0.height, reqs, done_set(pools@, it.index@ as int), wl, wr, st.pools@, st.coins@.coins)", "C15", "C01"),
+               ])]),
         Fn(M, "process_pegging", mode="assume", **mm_phase("pegging")),
         Fn(M, "process_swaps", home="C15", implicit_props=("C09", "C15", "C16", "C01"), **mm_process_swaps(),
            rewrites=[("MUTPARAM", "state", "st"), ("R3", 0)],
@@ -269,6 +328,7 @@ UNIT = Unit(
                                 if done_set(pools@, n).contains(k2) { let j = choose|j: int| 0 <= j < n && pools@[j] == k2; assert(pools@.contains(k2)); }
                                 if mentions(reqs, k2) { assert(pools@.contains(k2)); let j = choose|j: int| 0 <= j < pools@.len() && pools@[j] == k2; } } }
                         assert(selected(s0.transactions@, reqs, swap_pred(s0)));
+                        assert(liqs_mono(s0.pools@, st.pools@)) by { assert forall|k2: PoolKey| #[trigger] s0.pools@.contains_key(k2) implies st.pools@.contains_key(k2) && st.pools@[k2].liqs >= s0.pools@[k2].liqs by { assert(st.pools@.dom().contains(k2)); } }
                         assert(pools_ok(st.pools@)) by { assert forall|k2: PoolKey| #[trigger] st.pools@.contains_key(k2) implies
                             ((pool_live(st.pools@[k2]) && st.pools@[k2].liqs > 0) || (st.pools@[k2].lefts == 0 && st.pools@[k2].rights == 0 && st.pools@[k2].liqs == 0)) by {
                                 assert(s0.pools@.contains_key(k2));
@@ -300,7 +360,11 @@ UNIT = Unit(
                         if spec_tip(s0.network, s0.height, 180000) { assert(state.pools@.contains_key(pk_erg_sym())); }
                         assert(builtins_live(state)); assert(pools_ok(state.pools@)) by { assert forall|k: PoolKey| #[trigger] state.pools@.contains_key(k) implies
                             ((pool_live(state.pools@[k]) && state.pools@[k].liqs > 0) || (state.pools@[k].lefts == 0 && state.pools@[k].rights == 0 && state.pools@[k].liqs == 0)) by { if s0.pools@.contains_key(k) { assert(state.pools@[k] == s0.pools@[k]); } } }
-                        assert(state_inv(state)); lemma_two_pools_min(state); }"""), Inject(("after_let", "state", 1), "proof { lemma_two_pools_min(state); }"),
-                    Inject(("after_let", "state", 2), "proof { lemma_two_pools_min(state); }"), Inject(("after_let", "state", 3), "proof { lemma_two_pools_min(state); }")]),
+                        assert(state_inv(state)); lemma_two_pools_min(state);
+                        assert(liqs_mono(s0.pools@, state.pools@)) by { assert forall|k: PoolKey| #[trigger] s0.pools@.contains_key(k) implies state.pools@.contains_key(k) && state.pools@[k].liqs >= s0.pools@[k].liqs by { assert(state.pools@.contains_key(k)); } }
+                        lemma_builtin_liqs(state); lemma_wd_env_mono(s0.transactions@, s0.pools@, s0.coins@.coins, state.pools@, state.coins@.coins, spec_tip(s0.network, s0.height, 180000)); }
+                        let ghost s1 = state;"""),
+                    Inject(("after_let", "state", 1), "proof { lemma_two_pools_min(state); lemma_builtin_liqs(state); lemma_wd_env_mono(s0.transactions@, s1.pools@, s1.coins@.coins, state.pools@, state.coins@.coins, spec_tip(s0.network, s0.height, 180000)); } let ghost s2 = state;"),
+                    Inject(("after_let", "state", 2), "proof { lemma_two_pools_min(state); lemma_builtin_liqs(state); lemma_wd_env_mono(s0.transactions@, s2.pools@, s2.coins@.coins, state.pools@, state.coins@.coins, spec_tip(s0.network, s0.height, 180000)); }"), Inject(("after_let", "state", 3), "proof { lemma_two_pools_min(state); }")]),
     ],
 )
